@@ -853,3 +853,24 @@ Example snappy_compress_example :
   let x := repeat 7 40 ++ [1; 2; 3] ++ repeat 7 40 in
   exists out, compress x = Ok out /\ (length out < length x)%nat /\ spec_decode out = Some x.
 Proof. eexists. split; [vm_compute; reflexivity|]. split; [vm_compute; lia|vm_compute; reflexivity]. Qed.
+
+Theorem snappy_compress_spec_decode_thm : forall (St : Type) (look : St -> nat -> nat * St) (ins : St -> nat -> St)
+    (st0 : St) (x : list N),
+  bytes x -> nlen x < 2 ^ 32 ->
+  exists out, compress_with look ins st0 x = Ok out /\ spec_decode out = Some x.
+Proof.
+  intros St look ins st0 x B H.
+  destruct (snappy_compress_valid_thm St look ins st0 x B H) as (out & Hc & HD & _).
+  exists out. split; [exact Hc|apply spec_decode_complete; exact HD].
+Qed.
+
+(** C09: a destination smaller than the declared length is refused, nothing is written beyond it *)
+Theorem snappy_decompress_small_dst_refused_thm : forall s x cap,
+  bytes s -> DenotesSnappy s x -> cap < nlen x -> exists c, decompress s cap = Err c.
+Proof.
+  intros s x cap B HD Hc. destruct (decompress s cap) as [y|c|f] eqn:E.
+  - exfalso. destruct (snappy_decompress_sound_thm _ _ _ B E) as [HD' Hl].
+    assert (x = y) by (eapply denotes_functional; eassumption). subst y. lia.
+  - eauto.
+  - exfalso. eapply snappy_decompress_never_faults_thm; eassumption.
+Qed.
